@@ -14,6 +14,7 @@ Require Import Cadence.Proofs.WriterBase.
 Require Import Cadence.Proofs.WriterThms.
 Require Import Cadence.Proofs.StatsProofs.
 Require Import Cadence.Proofs.SockProofs.
+Require Import Cadence.Proofs.SockFF.
 
 (* an unbuffered sink: exactly one send per emit, payload = the metric's bytes, nothing added or
    removed, destination as configured; the result is the number of bytes (Ok) or the socket's error *)
@@ -108,6 +109,28 @@ Theorem c13_scenario_buffered : forall co queued ops rs dg st,
   Forall (fun d => (exists ms : list str, ms <> [] /\ d = concat (map (fun m => m ++ [10%N]) ms) /\ length d <= c) \/
                    (c < length d + 1)) dg.
 Proof. exact sc_buffered_frames. Qed.
+
+(* without an outage a buffered socket sink IS the fault-free line-buffering writer: answers and
+   datagrams of the scenario are those of Writer.run with the empty fault script on the same emits
+   and flushes (so everything C05/C06/C19 say about the writer holds of the sink) *)
+Theorem c13_scenario_up : forall co queued ops, no_down ops ->
+  let c := match co with Some n => n | None => default_capacity end in
+  let '(xs, w) := Writer.run c newline [] (wops ops) in
+  fst (sc_buffered co queued ops) = (sres_of queued ops xs, map sd_payload (datagrams 0 (lg w))).
+Proof. exact sc_buffered_up. Qed.
+
+(* exactly the metric bytes on the wire: metrics that fit a datagram leave as the byte stream
+   m1 "\n" m2 "\n" ... - nothing added, removed, duplicated or reordered -, every emit answers
+   Ok(len), and the datagrams are as few as greedy packing allows *)
+Theorem c13_scenario_bytes : forall co queued (ms : list str),
+  let c := match co with Some n => n | None => default_capacity end in
+  Forall (fun m => length m + 1 <= c) ms ->
+  let '(rs, dg, st) := sc_buffered co queued (map SEmit ms) in
+  rs = map (fun m => SK (N.of_nat (length m))) ms /\
+  concat dg = concat (map (fun m => m ++ [10%N]) ms) /\
+  length (filter (fun d => match d with [] => false | _ => true end) dg) =
+    Greedy.greedy_count c (map (fun m => length m + 1) ms).
+Proof. exact sc_buffered_bytes. Qed.
 
 (* non-vacuity *)
 Example c13_witness :
